@@ -327,7 +327,17 @@ pub fn cli() -> Cli {
         let case = v.get("case").cloned().unwrap_or(v);
         return Cli { id, tier: Tier::Quick, replay: Some(case) };
     }
-    Cli { id, tier: Tier::parse(&args[2]), replay: None }
+    let tier = Tier::parse(&args[2]);
+    // Wall-clock watchdog: a check that does not terminate (for instance because the code under test
+    // spins inside one task poll, where virtual time cannot advance) is a machinery exit, never a hang.
+    let cap_s: u64 = std::env::var("VERIF_WALL_CAP_S").ok().and_then(|v| v.parse().ok()).unwrap_or(if tier.thorough() { 6 * 3600 } else { 1800 });
+    let wid = id.clone();
+    std::thread::spawn(move || {
+        std::thread::sleep(std::time::Duration::from_secs(cap_s));
+        println!("MACHINERY-ERROR: property={wid} the check did not finish within {cap_s} s (wall cap); no verdict");
+        std::process::exit(2);
+    });
+    Cli { id, tier, replay: None }
 }
 
 pub fn hex(b: &[u8]) -> String {
